@@ -21,6 +21,7 @@ def dispatch (cfg : Cfg) (b : Block) : String :=
   | "call" => (runCall cfg.fl b).line b.kind b.id ""
   | "conv" => (runCall cfg.fl b true).line b.kind b.id ""
   | "race" => (runRace b).line b.kind b.id ""
+  | "redefgen" => (runRedefGen b).line b.kind b.id "C09"
   | "convseq" => (runConvSeq b).line b.kind b.id "C10"
   | "hist" => (runHist cfg.fl b).line b.kind b.id ""
   | "redef" => (runRedef cfg.fl b).line b.kind b.id ""
